@@ -122,7 +122,7 @@ TEXT = {
                 'leave the stump bit-identical. The specification\'s VerifyCall is total; a start without a return is not a '
                 'behaviour.',
         'design_ref': 'DESIGN.md section 5 (C04), section 8',
-        'note': COMMON_NOTE + ' Termination is judged by a time budget (2 s per call on inputs of at most a few dozen elements).',
+        'note': COMMON_NOTE + ' Termination is judged by a time budget (20 s per call on inputs of at most a few dozen elements).',
         'technique': 'TLA+ spec defines states + input domain; native enumeration with watchdog and atomicity check',
     },
     'C05': {
